@@ -35,30 +35,35 @@ Definition tfields (md : opmode) : list fld :=
   | mA | mBA => [FA] | mB | mAB => [FB] | mF | mX | mI => [FA; FB]
   end.
 
-Section Emi94.
-Variables (M R W : N).
-
-Definition fold (p L : N) : N :=
+(* folding a pointer p into the limit L around a core of size M *)
+Definition fold (M p L : N) : N :=
   let r := p mod L in if L / 2 <? r then r + (M - L) else r.
+
+Section Emi94.
+Variable M : N.
+(* how read and write pointers are folded: (fun p => fold M p R) and
+   (fun p => fold M p W) for limits R, W; (fun p => p mod M) when limits are ignored *)
+Variables foldR foldW : N -> N.
+
 Definition addr (pc x : N) : N := (pc + x) mod M.
 
 (* operand evaluation: core after side effects, read pointer, write pointer,
    copy of the instruction the read pointer designates *)
-Definition eval_operand (c : core) (pc : N) (md : amode) (num : N) : core * N * N * instr :=
+Definition eval_operand_g (c : core) (pc : N) (md : amode) (num : N) : core * N * N * instr :=
   match mode_field md with
   | None =>
       match md with
       | IMMEDIATE => (c, 0, 0, get c pc)
-      | _ => let rp := fold num R in (c, rp, fold num W, get c (addr pc rp))
+      | _ => let rp := foldR num in (c, rp, foldW num, get c (addr pc rp))
       end
   | Some f =>
-      let rp0 := fold num R in
-      let wp0 := fold num W in
+      let rp0 := foldR num in
+      let wp0 := foldW num in
       let tgt := addr pc wp0 in
       let c1 := if predec md
                 then upd c tgt (fun i => fset f i ((fget f i + M - 1) mod M)) else c in
-      let rp := fold (rp0 + fget f (get c1 (addr pc rp0))) R in
-      let wp := fold (wp0 + fget f (get c1 tgt)) W in
+      let rp := foldR (rp0 + fget f (get c1 (addr pc rp0))) in
+      let wp := foldW (wp0 + fget f (get c1 tgt)) in
       let ir := get c1 (addr pc rp) in
       let c2 := if postinc md
                 then upd c1 tgt (fun i => fset f i ((fget f i + 1) mod M)) else c1 in
@@ -76,10 +81,10 @@ Definition all_pairs (p : fld -> fld -> bool) (ps : list (fld * fld)) : bool :=
   forallb (fun sd => p (fst sd) (snd sd)) ps.
 
 (* core after the task, and the successor tasks in queueing order *)
-Definition step_core (c : core) (pc : N) : core * list N :=
+Definition step_core_g (c : core) (pc : N) : core * list N :=
   let IR := get c pc in
-  let '(c1, rpa, _, ira) := eval_operand c pc (i_am IR) (i_a IR) in
-  let '(c2, rpb, wpb, irb) := eval_operand c1 pc (i_bm IR) (i_b IR) in
+  let '(c1, rpa, _, ira) := eval_operand_g c pc (i_am IR) (i_a IR) in
+  let '(c2, rpb, wpb, irb) := eval_operand_g c1 pc (i_bm IR) (i_b IR) in
   let w := addr pc wpb in
   let jmp := addr pc rpa in
   let nxt := (pc + 1) mod M in
@@ -124,6 +129,12 @@ Definition step_core (c : core) (pc : N) : core * list N :=
   | NOP => (c2, [nxt])
   end.
 End Emi94.
+
+(* the step under read limit R and write limit W *)
+Definition eval_operand (M R W : N) := eval_operand_g M (fun p => fold M p R) (fun p => fold M p W).
+Definition step_core (M R W : N) := step_core_g M (fun p => fold M p R) (fun p => fold M p W).
+(* the step with limits ignored: every pointer is simply reduced modulo M *)
+Definition step_core_unlimited (M : N) := step_core_g M (fun p => p mod M) (fun p => p mod M).
 
 (* bounded first-in-first-out queue: append while fewer than P tasks *)
 Definition enq (P : N) (q : list N) (xs : list N) : list N :=
